@@ -38,17 +38,21 @@ type AuthReq struct {
 	Hints  []string `json:"hints,omitempty"`  // scope hints put into the context (raw, possibly permuted/duplicated)
 	Global bool     `json:"global,omitempty"` // hints given with WithScopes instead of per host
 	Task   int      `json:"task,omitempty"`
+	// CancelAfter: the request's context is cancelled by another task after that many
+	// scheduling steps of its own (0 = never). Such a request may end any way it likes; the
+	// point is what the others experience meanwhile.
+	CancelAfter int `json:"cancel_after,omitempty"`
 }
 
 type AuthParams struct {
-	Hosts  []AuthHost `json:"hosts"`
-	Reqs   []AuthReq  `json:"reqs"`
-	Tasks  int        `json:"tasks"`
-	Cache  string     `json:"cache"` // none | shared | single
+	Hosts []AuthHost `json:"hosts"`
+	Reqs  []AuthReq  `json:"reqs"`
+	Tasks int        `json:"tasks"`
+	Cache string     `json:"cache"` // none | shared | single
 	// SharedCtx: every request is made with one and the same context, which carries the
 	// scope hints of Reqs[0] (given with WithScopes) - as a caller that prepares its context once does
 	SharedCtx bool `json:"shared_ctx,omitempty"`
-	OAuth2 bool       `json:"force_oauth2,omitempty"`
+	OAuth2    bool `json:"force_oauth2,omitempty"`
 }
 
 type authProp struct{}
@@ -73,7 +77,7 @@ func (p *authProp) Assumptions() []string {
 	return []string{
 		"scope strings are well-formed (type:name:actions)",
 		"with the single-context cache a token is by design reused for any scope on its host; the scope-set reuse rule is checked for the shared cache only",
-		"cancellation is not injected (not in this property's quantifier)",
+		"a request whose context is cancelled, and any request to the same host that overlaps it (it may share the cancelled token fetch), may end any way; the secret-flow, coalescing and reuse rules hold for them as for all others",
 	}
 }
 
@@ -139,6 +143,11 @@ func (p *authProp) Gen(r *Rand, tier string, idx int) any {
 		}
 		q.Global = r.Chance(0.3)
 		ap.Reqs = append(ap.Reqs, q)
+	}
+	if ap.Tasks > 1 && r.Chance(0.25) {
+		for k := r.Range(1, 2); k > 0; k-- {
+			ap.Reqs[r.Intn(len(ap.Reqs))].CancelAfter = r.Range(1, 12)
+		}
 	}
 	if ap.Tasks > 1 && r.Chance(0.3) {
 		ap.SharedCtx = true
@@ -564,6 +573,17 @@ func (p *authProp) run(rc *RunCtx, ap *AuthParams, info *RunInfo) *Verdict {
 							ctx = auth.WithScopesForHost(ctx, h.Name, q.Hints...)
 						}
 					}
+					if q.CancelAfter > 0 {
+						var cancel context.CancelFunc
+						ctx, cancel = context.WithCancel(ctx)
+						k := q.CancelAfter
+						simrt.Go(func() {
+							for i := 0; i < k; i++ {
+								simrt.Yield("cancel-wait")
+							}
+							cancel()
+						})
+					}
 					method, path := q.Method, "/v2/"+q.Repo+"/manifests/latest"
 					var body io.Reader
 					if q.Method == "BLOB" {
@@ -700,6 +720,17 @@ func (p *authProp) run(rc *RunCtx, ap *AuthParams, info *RunInfo) *Verdict {
 			gotCred = true
 		}
 		what := fmt.Sprintf("request %s %s %s (task %d, hints %v)", d.q.Method, ap.Hosts[d.q.Host].Name, d.q.Repo, d.task, d.q.Hints)
+		disturbed := d.q.CancelAfter > 0
+		for _, o := range dos {
+			if o.q.CancelAfter > 0 && o.q.Host == d.q.Host && o.from < d.to && d.from < o.to {
+				// it may have waited on the token fetch of a request that was cancelled, and shares its failure
+				disturbed = true
+			}
+		}
+		if disturbed {
+			info.Probes["request_cancelled_or_overlapping_a_cancelled_one"]++
+			continue
+		}
 		if ap.Hosts[d.q.Host].RedirectTo > 0 && d.q.Method == "BLOB" {
 			// handed over to another registry, which may ask for credentials of its own: how
 			// the request ends is that host's business (its 401 is a legitimate end); where
